@@ -162,3 +162,31 @@ func ContendedConfig(r Rander, kind string, nops int) *Config {
 	}
 	return c
 }
+
+// ResetTargets lists (kind, component) pairs for directed mid-traffic resets.
+var ResetTargets = [][2]string{{"vm", "TLB"}, {"vm", "L2TLB"}, {"vm", "MMU"}, {"wt", "L1"}, {"wb", "L2"},
+	{"wtwb", "L1"}, {"wtwb", "L2"}, {"banked", "Mem"}, {"ideal", "MemCtrl"}, {"dram", "DRAM"}}
+
+// ResetConfig is a directed configuration: a wide window of requests to many
+// distinct lines/pages is in flight when component `target` is Reset (after an
+// optional Pause), so that several requests are staged in its internal buffers.
+func ResetConfig(r Rander, kind, target string, nops int) *Config {
+	c := GenConfig(r, kind, nops)
+	c.Window = 6
+	c.PortBuf = 4
+	c.Ops2 = nil
+	c.Ops = nil
+	stride := uint64(64)
+	if kind == "vm" {
+		stride = 4096 + 64 // a new page (TLB miss) per request
+	}
+	for i := 0; i < nops; i++ {
+		c.Ops = append(c.Ops, Op{Write: r.Chance(1, 3), Addr: uint64(i%11)*stride + uint64(r.Intn(8))*4, Val: uint32(r.U64())})
+	}
+	at := r.Range(0, 2)
+	c.Ctrl = []Ctrl{{After: at, Target: target, Cmd: 3}}
+	if r.Chance(1, 2) {
+		c.Ctrl = []Ctrl{{After: at, Target: target, Cmd: 0}, {After: at, Target: target, Cmd: 3, Wait: r.Range(3, 20)}}
+	}
+	return c
+}
